@@ -45,9 +45,9 @@ ASSUMPTIONS = [
     "the halt-clear strobe reaches an IN endpoint outside its own transaction (it is caused by an ACK on endpoint 0, "
     "which a token precedes): WAIT_FOR_DATA or WAIT_TO_SEND",
 ]
-PARTIAL = ("USBSignalInEndpoint has no halt-clear input: its toggle is never reset by CLEAR_FEATURE(ENDPOINT_HALT) "
-           "(outside the files the property anchors; theorems and monitor cover only its advance-on-ACK clause); the "
-           "transaction-level theorems are tied to the cycle-level ones by co-simulation only (no cycle_refines_event lemma)")
+PARTIAL = ("the transaction-level theorems are tied to the cycle-level ones by co-simulation only (no "
+           "cycle_refines_event lemma); the status endpoint's reset clause (fix 08e26ae) is proved on the event-level "
+           "model and checked by the device monitor, its cycle-level model (C17) does not have the halt-clear input yet")
 
 I, O, P, S = U.PID_IN, U.PID_OUT, U.PID_PING, U.PID_SETUP
 D0, D1, ACK = U.PID_DATA0, U.PID_DATA1, U.PID_ACK
@@ -131,8 +131,7 @@ def toggle_monitor(spec, events, results, fails, tags):
                 tags.add("c14:halt-clear-" + ("named-existing" if (("in", n) in kinds and d_in) or (("out", n) in kinds and not d_in)
                                               or (("sig", n) in kinds and d_in) else "named-nobody"))
                 if d_in and n in in_exp:
-                    # the status endpoint has no halt-clear input (see PARTIAL): its next PID is not judged
-                    in_exp[n] = 0 if in_kind[n] == "in" else None
+                    in_exp[n] = 0            # stream IN and status endpoints alike (fix 08e26ae for the latter)
                 if not d_in and n in out_exp:
                     out_exp[n] = 0
                 pending_clear = None
